@@ -340,7 +340,7 @@ func init() {
 					rejected = true // the state of a builder after a rejected call is unspecified: stop using it
 				}
 			}()
-			switch (p[0] >> (2 * uint(i))) % 4 {
+			switch (p[0] >> (3 * uint(i))) % 10 {
 			case 0:
 				b.NotNull()
 			case 1:
@@ -349,6 +349,18 @@ func init() {
 				b.CollectionLengthUpperBound(3 + p[1]%3)
 			case 3:
 				b.StringPrefix(c05Prefixes[p[1]%len(c05Prefixes)])
+			case 4:
+				b.Null() // (the one call that states the opposite of what most refinements carry)
+			case 5:
+				b.NumberRangeUpperBound(cty.NumberIntVal(int64(5+p[1]%5)), p[1]%2 == 1)
+			case 6:
+				b.CollectionLengthLowerBound(p[1] % 3)
+			case 7:
+				b.StringPrefixFull(c05Prefixes[p[1]%len(c05Prefixes)])
+			case 8:
+				b.NumberRangeInclusive(cty.NumberIntVal(int64(p[1]%3)), cty.NumberIntVal(int64(6+p[1]%3)))
+			case 9:
+				b.CollectionLength(p[1] % 4)
 			}
 		}
 		for i := 0; i < 3 && !rejected; i++ {
@@ -439,7 +451,24 @@ func init() {
 	}, selAny)
 	defOp("RefineNull", "", func(t *taskState, a [3]cty.Value, p [3]int) opRes {
 		u, _ := a[0].Unmark()
+		if !u.IsKnown() && p[0]%3 != 0 {
+			// the shared value itself: whatever it was refined with before stays what it reports
+			return v1(a[0].Refine().Null().NewValue())
+		}
 		return v1(cty.UnknownVal(u.Type()).Refine().Null().NewValue())
+	}, selAny)
+	// a callback that marks members: marks put on members of a set surface on the set, next to the set's own
+	defOp("TransformMark", "", func(t *taskState, a [3]cty.Value, p [3]int) opRes {
+		n := 0
+		every := 1 + p[0]%4
+		r, err := cty.Transform(a[0], func(pa cty.Path, v cty.Value) (cty.Value, error) {
+			n++
+			if n%every == 0 && len(pa) > 0 {
+				return v.Mark("tm"), nil
+			}
+			return v, nil
+		})
+		return valErr(r, err)
 	}, selAny)
 	// ---- accessors followed by mutation of the returned Go data
 	defOp("AsBigFloatMutate", "alias.out.bigfloat", func(t *taskState, a [3]cty.Value, p [3]int) opRes {
